@@ -144,6 +144,54 @@ def cast_sites(src=SRC, int_types=None):
     return sites
 
 
+_WIDTH = [
+    ('shift', re.compile(r'<<=?|(?<=[\w)\]])\s*>>=?\s*(?=[\w(])')),
+    ('literal', re.compile(r'\b0[xXbBoO][0-9A-Fa-f_]+\w*|\b(?:255|256|65535|65536|4294967295|4294967296)(?:_?[ui]\d+|usize)?\b')),
+    ('narrow-type', re.compile(r'\b(?:u8|u16|i8|i16)\b')),
+    ('limit', re.compile(r'::\s*(?:MAX|MIN|BITS)\b')),
+    ('arith', re.compile(r'\b(?:wrapping|overflowing|saturating|checked|unchecked)_\w+|\brotate_(?:left|right)\b|\bswap_bytes\b|'
+                         r'\b(?:to|from)_[lbn]e(?:_bytes)?\b|\b(?:leading|trailing)_(?:zeros|ones)\b|\bcount_(?:ones|zeros)\b|\bpow\s*\(|\bilog2?\b')),
+]
+
+
+def width_sites(src=SRC):
+    """Width-sensitive constructs other than `as` casts: shifts, bit-pattern literals, narrow integer
+    types, integer limits, wrapping/saturating/bit-counting arithmetic. The product pipeline has next to
+    none of them; a new one (a packed key, a narrow lookup table, a mask) is where a size assumption hides."""
+    sites = []
+    for dp, dn, fn in sorted(os.walk(src)):
+        dn.sort()
+        for f in sorted(fn):
+            if not f.endswith('.rs') or f in SKIP_FILES:
+                continue
+            rel = os.path.relpath(os.path.join(dp, f), src)
+            text = strip_rust_comments(open(os.path.join(dp, f)).read())
+            # test modules are not part of the pipeline
+            cut = re.search(r'#\[cfg\(test\)\]\s*mod\s+\w+', text)
+            if cut:
+                text = text[:cut.start()]
+            fns = [(m.start(), m.group(1)) for m in re.finditer(r'\bfn\s+(\w+)', text)]
+            # generic brackets are not shifts: blank `<...>` groups (innermost first) before looking for << and >>
+            noshift = text
+            while True:
+                red = re.sub(r'<([^<>(){};=|]*)>', lambda m: ' ' + re.sub(r'[^\n]', ' ', m.group(1)) + ' ', noshift)
+                if red == noshift:
+                    break
+                noshift = red
+            for kind, rx in _WIDTH:
+                for m in rx.finditer(noshift if kind == 'shift' else text):
+                    enclosing = '-'
+                    for p_, name in fns:
+                        if p_ < m.start():
+                            enclosing = name
+                    ls = text.rfind('\n', 0, m.start()) + 1
+                    le = text.find('\n', m.end())
+                    snippet = ' '.join(text[ls:le if le >= 0 else len(text)].split())[:120]
+                    sites.append({'file': rel, 'fn': enclosing, 'expr': snippet, 'target': 'width:' + kind,
+                                  'line': text.count('\n', 0, m.start()) + 1})
+    return sites
+
+
 def site_key(s):
     return '%s::%s: %s as %s' % (s['file'], s['fn'], s['expr'], s['target'])
 
@@ -186,7 +234,7 @@ def gen_ids_text(aliases, sites, table):
     for s in sites:
         per[s['target']] = per.get(s['target'], 0) + 1
     for t in sorted(per):
-        lines.append('Definition casts_to_%s : nat := %d.' % (t, per[t]))
+        lines.append('Definition casts_to_%s : nat := %d.' % (re.sub(r'\W', '_', t), per[t]))
     lines.append('Definition cast_sites_total : nat := %d.' % len(sites))
     lines.append('')
     lines.append('(* one number per cast site = 60 bits of sha256("file::fn: operand as Type #occurrence"), sorted by key')
@@ -456,7 +504,7 @@ class C17:
     # ---------------- (A) ----------------
     def regen(self, out):
         aliases = read_aliases()
-        sites = cast_sites()
+        sites = cast_sites() + width_sites()
         table = json.load(open(CASTS))
         text = gen_ids_text(aliases, sites, table)
         write_if_changed(GEN_IDS, text)
